@@ -309,7 +309,19 @@ func (c *conductor) observe() string {
 	if int64(orph) > c.orphans && !c.degraded {
 		c.orphans = int64(orph)
 	}
-	return fmt.Sprintf("%s:%d:%d", cur, c.openSockets(), cc)
+	// the helper goroutines of setupConn: two per connect that is inside its handshake, none for any other
+	// (a finished handshake's reporters must be gone: polled, they need a moment to notice)
+	want := 0
+	for _, id := range c.inflight() {
+		if st, _ := c.g.held(id); st == stOpt || st == stSt || st == stAu {
+			want += 2
+		}
+	}
+	hs := want
+	if !c.degraded {
+		c.waitFor("reporter goroutines of finished handshakes are gone", func() bool { hs = hsReporters(c.label); return hs == want })
+	}
+	return fmt.Sprintf("%s:%d:%d:%d", cur, c.openSockets(), cc, hs)
 }
 
 func b2i(b bool) int {
